@@ -107,6 +107,11 @@ Parse(toks, reok, strict) ==
               hasre  |-> slash /\ reok,
               re     |-> IF slash /\ reok THEN Strs(secs[2]) ELSE <<>>]
 
+\* In the MODELS (not in the monitors, which take `reok` from the trace) the text behind "/" is built from
+\* the model alphabet, whose only invalid regular expressions are those with an unclosed "("
+ReSection(toks) == IF Count(toks, "slash") = 1 THEN SplitOn(toks, "slash")[2] ELSE <<>>
+ModelReOk(toks) == \A i \in DOMAIN ReSection(toks) : ReSection(toks)[i].s # "("
+
 \* the specification a parse result denotes (first default entry; at most one is in the properties' domain)
 DefaultsOf(es) == SelectSeq(es, LAMBDA e : e.dflt)
 ModsOf(es)     == SelectSeq(es, LAMBDA e : ~e.dflt)
